@@ -47,6 +47,32 @@ where
     panic!("container validator reached although the input holds no opening bracket or brace")
 }
 
+fn hexval(c: u8) -> Option<u16> {
+    match c {
+        b'0'..=b'9' => Some((c - b'0') as u16),
+        b'a'..=b'f' => Some((c - b'a' + 10) as u16),
+        b'A'..=b'F' => Some((c - b'A' + 10) as u16),
+        _ => None,
+    }
+}
+/// Role of the known finding: the text starts with `"\uXXXX` where XXXX is a surrogate
+/// code point (D800..=DFFF) that is not the high half of a `\uD8xx\uDCxx` pair. Only the
+/// `"\u` skeleton can hold such an escape within these bounds; for every other skeleton
+/// this is constant false.
+fn holds_unpaired_surrogate_escape(b: &[u8]) -> bool {
+    if b.len() < 8 || b[0] != b'"' || b[1] != b'\\' || b[2] != b'u' {
+        return false;
+    }
+    match (hexval(b[3]), hexval(b[4]), hexval(b[5]), hexval(b[6])) {
+        (Some(a), Some(c), Some(d), Some(e)) => {
+            let v = (a << 12) | (c << 8) | (d << 4) | e;
+            // an 8-byte text cannot hold the second escape of a pair
+            v >= 0xD800 && v <= 0xDFFF
+        }
+        _ => false,
+    }
+}
+
 macro_rules! window {
     ($name:ident, $pre:expr, $w:expr, $suf:expr, $n:expr, $depth:expr) => {
         window!($name, $pre, $w, $suf, $n, $depth, );
@@ -77,6 +103,8 @@ macro_rules! window {
                 b[pre.len() + $w + k] = suf[k];
                 k += 1;
             }
+            // known finding C08-unpaired-surrogate-escape is decided by its own harness
+            kani::assume(!holds_unpaired_surrogate_escape(&b));
             let want = recognise::<$depth>(&b, 128);
             let got = validate(&b);
             match (&got, want) {
@@ -179,5 +207,25 @@ fn c08_witness_must_fail() {
     let got = validate(&w);
     // wrong on purpose: claims a leading zero may be followed by a digit
     assert!(got.is_ok() == (w[0] >= b'0' && w[0] <= b'9' && w[1] >= b'0' && w[1] <= b'9'));
+    core::mem::forget(got);
+}
+
+/// Known finding C08-unpaired-surrogate-escape: RFC 8259's grammar admits any `\uXXXX`
+/// (section 8.2 names `"\uDEAD"` as grammatical), the strict validator rejects a surrogate
+/// escape that is not part of a pair. Every text `"\uXXXX"` with XXXX in D800..=DFFF.
+#[kani::proof]
+#[kani::unwind(10)]
+#[kani::stub(alloc::string::String::from_utf8_lossy, lossy_stub)]
+#[kani::stub(succinctly::json::validate::Validator::validate_array, no_container)]
+#[kani::stub(succinctly::json::validate::Validator::validate_object, no_container)]
+fn c08_unpaired_surrogate_escape() {
+    let w: [u8; 4] = kani::any();
+    let b = [b'"', b'\\', b'u', w[0], w[1], w[2], w[3], b'"'];
+    kani::assume(holds_unpaired_surrogate_escape(&b));
+    let want = recognise::<1>(&b, 128);
+    assert!(want == Verdict::Accept);
+    let got = validate(&b);
+    let rfc8259_text_is_accepted = got.is_ok();
+    assert!(rfc8259_text_is_accepted);
     core::mem::forget(got);
 }
